@@ -164,6 +164,10 @@ func DecodeLength(b io.ByteReader) (n, bu int, err error) {
 			break
 		}
 
+		if bu >= 4 {
+			return 0, bu, ErrMalformedVariableByteInteger // [MQTT-1.5.5-1] a variable byte integer has at most four bytes
+		}
+
 		multiplier += 7
 		bu++
 	}
